@@ -1,4 +1,4 @@
-import Ypv.Lemmas.Eval
+import Ypv.Lemmas.Order
 /-!
 # C01 — query results equal the documented segment semantics
 -/
@@ -142,3 +142,26 @@ theorem optional_eq_required_of_exists : ∀ (segs : List ESeg) (r : Res),
 example : allExist (fun _ _ _ => .ok true) Desc.none [.key ['a'], .index 0]
     (.real (.map none [(.str ['a'], .seq none [.scalar none (.int 1)])], Ctx.root)) = true := by
   decide +kernel
+
+/-- **Document order, none twice.**  For a well-formed document and a path without `**` and without
+slices, the addresses of the selected nodes form a subsequence of the document's addresses in document
+order (pre-order), and no address occurs twice.  (More is proved in `ord_required`: the subtrees of the
+results are pairwise disjoint.) -/
+theorem select_sorted_nodup {d : Node} (hd : d.WF) (segs : List ESeg) (hs : ∀ s ∈ segs, s.ordered = true) :
+    ((flatR (select mt dsc segs (.real (d, Ctx.root))).1).map (·.2.addr)).Sublist (addrsAll d [])
+    ∧ ((flatR (select mt dsc segs (.real (d, Ctx.root))).1).map (·.2.addr)).Nodup := by
+  rw [← required_eq_select]
+  have h := ord_required (mt := mt) (dsc := dsc) segs hs d Ctx.root
+  have hsub := List.Sublist.trans (addrs_sublist_flatMap_sub _) h
+  exact ⟨hsub, List.Nodup.sublist hsub (addrsAll_nodup d hd [])⟩
+
+/-- `select_traverse_nodup` does NOT hold, for the specification and for the implementation alike:
+after `**` a scalar is selected once as the value of a matching key of its parent and once as a
+matching scalar itself.  `**[.=x]` on `{x: x}` selects the node at `x` twice (reproduced on the real
+code; recorded in notes/C01.md as a reading of "`**` matches every node for which the following
+segments match"). -/
+example :
+    (flatR (select (fun _ n t => match n with | .scalar _ (.str s) => .ok (s == t) | _ => .ok false) Desc.none
+      [.traverse, .search false .equals ['.'] ['x']]
+      (.real (.map none [(.str ['x'], .scalar none (.str ['x']))], Ctx.root))).1).map (·.2.addr)
+    = [[.key (.str ['x'])], [.key (.str ['x'])]] := by decide +kernel
